@@ -48,6 +48,16 @@ type TProg struct {
 	Post []TOp   `json:"post,omitempty"` // sequential section after the goroutines have joined
 	Slow int     `json:"slow,omitempty"` // perturbation inside the recording processors' Shutdown
 	Runs int     `json:"runs,omitempty"`
+	// Re-entrant ("instrumented") exporters: the exporter itself starts and
+	// ends a span (named "x") through a tracer of the SAME provider, obtained
+	// right after construction. SspX: exporter of simple(exp), 0 plain, 1 its
+	// Shutdown traces. BspX: exporter of batch(exp), bit 0 its Shutdown
+	// traces, bit 1 its ExportSpans traces (once per call that carries a span
+	// of the program). ExportSpans re-entrancy behind the SIMPLE processor is
+	// not generated: it self-deadlocks on the unchanged tree (OnEnd holds the
+	// exporter mutex while it calls ExportSpans), see the package comment.
+	SspX int `json:"ssp_x,omitempty"`
+	BspX int `json:"bsp_x,omitempty"`
 }
 
 // ---------------------------------------------------------------------
@@ -79,9 +89,18 @@ func (p *recProc) add(kind byte, span int) int {
 }
 
 func (p *recProc) OnStart(_ context.Context, s sdktrace.ReadWriteSpan) {
-	p.add('s', parseID("s", s.Name()))
+	p.addSpan('s', parseID("s", s.Name()))
 }
-func (p *recProc) OnEnd(s sdktrace.ReadOnlySpan) { p.add('e', parseID("s", s.Name())) }
+func (p *recProc) OnEnd(s sdktrace.ReadOnlySpan) { p.addSpan('e', parseID("s", s.Name())) }
+
+// addSpan records a delivery; spans that are not the program's (the "x"
+// spans of a re-entrant exporter) are kept as kind 'x' for the history only.
+func (p *recProc) addSpan(kind byte, id int) {
+	if id < 0 {
+		kind = 'x'
+	}
+	p.add(kind, id)
+}
 func (p *recProc) ForceFlush(context.Context) error {
 	p.add('f', -1)
 	if p.fail {
@@ -130,25 +149,50 @@ type recSpanExp struct {
 	mu        sync.Mutex
 	exports   []expEv
 	shutdowns []ival
+	internal  int // "x" spans received
+	// re-entrancy (set before the provider is used)
+	tracer               trace.Tracer
+	reShutdown, reExport bool
+}
+
+// traceSelf starts and ends a span through the provider the exporter serves.
+func (e *recSpanExp) traceSelf() {
+	if e.tracer != nil {
+		_, sp := e.tracer.Start(context.Background(), "x")
+		sp.End()
+	}
 }
 
 func (e *recSpanExp) ExportSpans(_ context.Context, spans []sdktrace.ReadOnlySpan) error {
 	ev := expEv{}
+	internal := 0
 	for _, s := range spans {
-		ev.Spans = append(ev.Spans, parseID("s", s.Name()))
+		if id := parseID("s", s.Name()); id >= 0 {
+			ev.Spans = append(ev.Spans, id)
+		} else {
+			internal++
+		}
 	}
 	e.mu.Lock()
-	ev.Tick = e.clock.Tick()
-	e.exports = append(e.exports, ev)
+	e.internal += internal
+	if len(ev.Spans) > 0 {
+		ev.Tick = e.clock.Tick()
+		e.exports = append(e.exports, ev)
+	}
 	e.mu.Unlock()
+	if e.reExport && len(ev.Spans) > 0 { // never for its own spans: no infinite recursion
+		e.traceSelf()
+	}
 	return nil
 }
 
 func (e *recSpanExp) Shutdown(context.Context) error {
+	enter := e.clock.Tick()
+	if e.reShutdown {
+		e.traceSelf()
+	}
 	e.mu.Lock()
-	iv := ival{Enter: e.clock.Tick()}
-	iv.Exit = e.clock.Tick()
-	e.shutdowns = append(e.shutdowns, iv)
+	e.shutdowns = append(e.shutdowns, ival{Enter: enter, Exit: e.clock.Tick()})
 	e.mu.Unlock()
 	return nil
 }
@@ -244,7 +288,7 @@ func validT(p TProg) bool {
 			ok = false
 		}
 	}
-	return ok && p.Pre >= 0 && p.Pre <= 64 && len(p.Gs) <= 8
+	return ok && p.Pre >= 0 && p.Pre <= 64 && len(p.Gs) <= 8 && p.SspX >= 0 && p.SspX <= 1 && p.BspX >= 0 && p.BspX <= 3
 }
 
 func execTrace(p TProg) (*thist, func()) {
@@ -301,6 +345,12 @@ func execTrace(p TProg) (*thist, func()) {
 	}
 	tp := sdktrace.NewTracerProvider(opts...)
 	base := tp.Tracer("base")
+	if e := h.exps[pSSP]; e != nil && p.SspX&1 != 0 {
+		e.tracer, e.reShutdown = tp.Tracer("exporter.simple"), true
+	}
+	if e := h.exps[pBSP]; e != nil && p.BspX&3 != 0 {
+		e.tracer, e.reShutdown, e.reExport = tp.Tracer("exporter.batch"), p.BspX&1 != 0, p.BspX&2 != 0
+	}
 	spans := make([]trace.Span, maxSpan+1)
 	tracerNames := []string{"a", "b", "", "a"}
 
@@ -425,6 +475,8 @@ func (h *thist) render() []string {
 				out = append(out, fmt.Sprintf("t=%d..%d   %s.Shutdown", e.Tick, e.Exit, name))
 			case 'f':
 				out = append(out, fmt.Sprintf("t=%d   %s.ForceFlush", e.Tick, name))
+			case 'x':
+				out = append(out, fmt.Sprintf("t=%d   %s observed a span of a re-entrant exporter", e.Tick, name))
 			default:
 				out = append(out, fmt.Sprintf("t=%d   %s.On%s(s%d)", e.Tick, name, map[byte]string{'s': "Start", 'e': "End"}[e.Kind], e.Span))
 			}
@@ -722,7 +774,7 @@ func oracleTraceSeq(h *thist) ([]vk.Violation, map[string]bool) {
 		for r := 0; r < 5; r++ {
 			got := ""
 			for _, e := range revs[r] {
-				if e.Tick > c.Start && e.Tick < c.End && e.Kind != 'f' {
+				if e.Tick > c.Start && e.Tick < c.End && e.Kind != 'f' && e.Kind != 'x' {
 					got += string(e.Kind)
 				}
 			}
@@ -895,6 +947,31 @@ func normaliseT(p *TProg) {
 		section(p.Gs[g], g)
 	}
 	section(p.Post, ng)
+	// exporter modes of processors the program never registers mean nothing
+	if !ever[pSSP] {
+		p.SspX = 0
+	}
+	if !ever[pBSP] {
+		p.BspX = 0
+	}
+}
+
+// reentrantClasses labels what the re-entrant exporters actually did.
+func reentrantClasses(h *thist, add func(string)) {
+	if e := h.exps[pSSP]; e != nil && e.reShutdown {
+		if _, sd := e.snapshot(); len(sd) > 0 {
+			add("reentrant_exporter_shutdown_behind_simple")
+		}
+	}
+	if e := h.exps[pBSP]; e != nil {
+		ex, sd := e.snapshot()
+		if e.reShutdown && len(sd) > 0 {
+			add("reentrant_exporter_shutdown_behind_batch")
+		}
+		if e.reExport && len(ex) > 0 {
+			add("reentrant_exporter_export_behind_batch")
+		}
+	}
 }
 
 func genInit(t *rapid.T) []int {
@@ -912,8 +989,15 @@ func genChunked[O any](t *rapid.T, g *rapid.Generator[O], maxChunks int) []O {
 	return out
 }
 
+// genReentrant draws the exporter modes (plain most of the time).
+func genReentrant(t *rapid.T, p *TProg) {
+	p.SspX = rapid.SampledFrom([]int{0, 0, 1}).Draw(t, "ssp_x")
+	p.BspX = rapid.SampledFrom([]int{0, 0, 1, 2, 3, 3}).Draw(t, "bsp_x")
+}
+
 func genTraceSeq(t *rapid.T) TProg {
 	p := TProg{Init: genInit(t)}
+	genReentrant(t, &p)
 	p.Gs = [][]TOp{genChunked(t, genRawTOp(false), 20)}
 	normaliseT(&p)
 	return p
@@ -976,6 +1060,7 @@ func runTraceSeq(p TProg) ([]vk.Violation, vk.Info) {
 	for k, v := range cl {
 		info.ClassIf(v, k)
 	}
+	reentrantClasses(h, info.Class)
 	for _, x := range p.Init {
 		info.Class("pool:" + poolNames[x])
 	}
@@ -1004,7 +1089,7 @@ func dedup(xs []string) []string {
 func TestTraceMembership(t *testing.T) {
 	vk.Run(t, vk.Spec[TProg]{
 		Property: "C15", Check: "trace_membership",
-		Rule: "generated op lists (1-80 ops: Register / Unregister of members, non-members, nil and a never-registered processor of non-comparable type / Tracer / Start / End / ForceFlush / Shutdown with live or already-cancelled contexts, repeated) on a TracerProvider built with 0-4 of a pool of 8 processors (4 recording ones, one of them failing, simple and batch processors around a recording exporter and around nil), each processor registered at most once; exact model of the ordered membership; " +
+		Rule: "generated op lists (1-80 ops: Register / Unregister of members, non-members, nil and a never-registered processor of non-comparable type / Tracer / Start / End / ForceFlush / Shutdown with live or already-cancelled contexts, repeated) on a TracerProvider built with 0-4 of a pool of 8 processors (4 recording ones, one of them failing, simple and batch processors around a recording exporter and around nil; the exporters are optionally re-entrant: their Shutdown, for the batch processor also their ExportSpans, starts and ends a span through the same provider), each processor registered at most once; exact model of the ordered membership; " +
 			"non-trivial = the program unregisters a non-member or a middle member while the provider is up and makes a Start/End call after a Shutdown with a live context returned nil; distinct = distinct case encodings",
 		Quick: 6000, Thorough: 80000,
 		Gen: genTraceSeq, Run: runTraceSeq, Known: knownTrace,
